@@ -22,7 +22,7 @@ add(
 add(
     "C05",
     "property-based testing: generated nestings of binder constructors with adversarially coinciding names vs. a lexically scoped reference evaluator, plus the metamorphic relation 'rename every binder to a fresh name'",
-    "Bounded exploration: expressions nesting Reduce/Lambda/Independent/Cat/Integrate/Approximate/Subs binders over a 2-3 name pool, built under eager/lazy/reflect/normalize and reinterpreted; inputs must equal the lexical free names (no __BOUND name ever), values must equal the lexically scoped oracle everywhere, and renaming all binders must change nothing. Also: histories (a live binder, 0-400 unrelated binders, a capturing substitution, a re-used binder name; uniqueness of the fresh-name supply) and funsor.factory terms whose fresh name re-uses a bound name.",
+    "Bounded exploration: expressions nesting Reduce/Lambda/Independent/Cat/Integrate/Approximate/Subs binders over a 2-3 name pool, built under eager/lazy/reflect/normalize and reinterpreted; inputs must equal the lexical free names (no __BOUND name ever), values must equal the lexically scoped oracle everywhere, and renaming all binders must change nothing. Also: histories (a live binder, 0-400 unrelated binders, a capturing substitution, a re-used binder name; uniqueness of the fresh-name supply) and funsor.factory terms whose fresh name re-uses a bound name; MarkovProduct binders (one data set under two assignments of pair names and two time names, lazy/reflect/eager, then a substituted value with a free variable named like the bound time variable or a step name).",
     "Trusts vf/lang.py (environment-extension semantics) and its alpha-renaming helper (cross-checked: oracle(renamed)==oracle(original) on every case through the value comparison). One open known finding (lazy Approximate) is excluded by construction.",
     "DESIGN.md section 3 C05",
 )
@@ -42,36 +42,36 @@ add(
 )
 add(
     "C10",
-    "property-based testing: generated transition tensors x algorithms vs. an explicit numpy left fold over time (differential vs. the naive variant for lagged models); grid enumeration in the thorough tier",
-    "Bounded exploration over durations 1-12, 1-3 prev->curr pairs with independently shuffled names, 0-2 batch inputs, time/batch (in)dependence, an optional free real parameter, six semirings and every num_segments for sequential/naive/mixed sequential sum-products and eager or lazily built MarkovProduct; every entry of the result is compared with the fold. sarkka_bilmes_product is compared entry-wise with its naive counterpart for all lag sets over {1,2,3}.",
+    "property-based testing: generated transition tensors x algorithms vs. an explicit numpy left fold over time (differential vs. the naive variant for lagged models); grid enumeration (duration x segments x time-dependence) in both tiers",
+    "Bounded exploration over durations 1-13, 1-3 prev->curr pairs with independently shuffled names, 0-2 batch inputs, time/batch (in)dependence, an optional free real parameter, six semirings and every num_segments for sequential/naive/mixed sequential sum-products and eager or lazily built MarkovProduct; every entry of the result is compared with the fold. sarkka_bilmes_product is compared entry-wise with its naive counterpart for all lag sets over {1,2,3}. Also: strongly negative log-potentials (partial sums far below log(tiny)) in the semirings whose product is +.",
     "Trusts numpy and the 30-line fold oracle; for lagged models the naive funsor implementation is the reference (as the property states).",
     "DESIGN.md section 3 C10",
 )
 add(
     "C09",
     "property-based testing: random plated factor graphs (plus structural templates) x algorithms vs. a brute-force oracle that enumerates the fully unrolled joint",
-    "Bounded exploration over factor graphs with <=5 factors, <=4 variables and <=3 plates (arbitrary, also crossing, plate sets), any eliminate set, integer plate scales, optional real parameter and six semirings; sum_product, partial_sum_product in one and two calls (valid splits by closure), modified/dynamic variants with empty steps, plated einsum and naive_plated_einsum are compared entry-wise with the unrolled joint; pedantic graphs must raise ValueError. Also: late-bridge factor graphs (a factor joining three components), operands spelled plate-before-variable.",
+    "Bounded exploration over factor graphs with <=5 factors, <=4 variables and <=3 plates (arbitrary, also crossing, plate sets), any eliminate set, integer plate scales, optional real parameter and six semirings; sum_product, partial_sum_product in one and two calls (valid splits by closure), modified/dynamic variants with empty steps, plated einsum and naive_plated_einsum are compared entry-wise with the unrolled joint; pedantic graphs must raise ValueError. Also: late-bridge factor graphs (a factor joining three components), operands spelled plate-before-variable, sibling plates nested in a third; every structural template x every algorithm x three semirings is enumerated in the quick tier.",
     "Trusts the 50-line itertools/numpy brute force (capped at 1e5 joint assignments); integer scales only (plate replication); a raised ValueError/NotImplementedError is a decline.",
     "DESIGN.md section 3 C09",
 )
 add(
     "C12",
     "property-based testing: generated Gaussians (all ranks, every interleaving of batch and real inputs) and chains of pointwise operations vs. the dense quadratic form evaluated point-wise",
-    "Bounded exploration over Gaussians with 1-3 real inputs (total dim <=5), 0-2 batch inputs, rank-deficient/square/over-complete factors and chains of up to 3 operations (add, subtract, substitution of numbers/batched tensors/affine expressions, integer indexing/slicing/renaming, align, Cat, compress_gaussians, lazy+reinterpret) plus all 9 constructor parametrisations; the result is compared with -1/2||xS-w||^2 at every batch index and 3 real points. Also: substituted values that only look affine (x + h(x), products of factors in one variable, non-additive reductions).",
+    "Bounded exploration over Gaussians with 1-3 real inputs (total dim <=5), 0-2 batch inputs, rank-deficient/square/over-complete factors and chains of up to 3 operations (add, subtract, substitution of numbers/batched tensors/affine expressions, integer indexing/slicing/renaming, align, Cat, compress_gaussians, lazy+reinterpret) plus all 9 constructor parametrisations; the result is compared with -1/2||xS-w||^2 at every batch index and 3 real points. Also: substituted values that only look affine (x + h(x), products of factors in one variable, non-additive reductions); every result is also evaluated at points whose integral coordinates are integer-typed arrays (metamorphic: same value as the float point).",
     "Trusts numpy and the point-wise reference evaluator; parameters are well-conditioned by construction.",
     "DESIGN.md section 3 C12",
 )
 add(
     "C13",
     "property-based testing: generated Gaussians/mixtures x integral operations vs. closed forms (Schur complement, log-det, Gaussian expectation) computed on dense coefficients probed from the reference evaluator",
-    "Bounded exploration over full-rank/over-complete Gaussians, sums and Tensor+Gaussian mixtures in every input interleaving: marginals over any subset, log-normalisers, plate sums, mixture reductions, two-step marginalisation, Integrate against variables/quadratics/Gaussians, moment matching (mass, mean, covariance) and rank-deficient blocks (must not yield a finite number). Completion is demanded on full-rank inputs. Also: integrated blocks of exactly rank / rank+1 dimensions, signed and transformed Gaussian integrands; coincidental singularity is separated from structural deficiency by jittering the factors.",
+    "Bounded exploration over full-rank/over-complete Gaussians, sums and Tensor+Gaussian mixtures in every input interleaving: marginals over any subset, log-normalisers, plate sums, mixture reductions, two-step marginalisation, Integrate against variables/quadratics/Gaussians, moment matching (mass, mean, covariance) and rank-deficient blocks (must not yield a finite number). Completion is demanded on full-rank inputs. Also: integrated blocks of exactly rank / rank+1 dimensions, signed and transformed Gaussian integrands; coincidental singularity is separated from structural deficiency by jittering the factors; one Gaussian object normalised, then renamed / sliced / indexed in an integer input and normalised again (cached factorisations).",
     "Trusts numpy.linalg on <=5x5 well-conditioned matrices and exact finite differences of quadratics (verified at an extra point per probe).",
     "DESIGN.md section 3 C13",
 )
 add(
     "C14",
     "property-based testing: generated Deltas and sampling scenarios with a seeded RNG vs. explicit indicator semantics, exact mass identities and dense Gaussian moments",
-    "Bounded exploration of (1) Delta evaluation by substitution at every candidate value, reduction and integration against the point value (unit mass); (2) Tensor.sample over every subset of inputs with -inf entries and 0-2 particle inputs: type, support, exact mass for every batch element and particle, determinism; (3) Gaussian.sample: mass vs the closed-form marginal, determinism, and reparametrised samples recovered as an affine map of the noise with exactly the Gaussian's mean and covariance. Also: point masses inside the generated term language (several Deltas, one point a function of another's variable, reductions / Integrate over some of a Delta's variables) against the reference semantics of vf/lang.py.",
+    "Bounded exploration of (1) Delta evaluation by substitution at every candidate value, reduction and integration against the point value (unit mass); (2) Tensor.sample over every subset of inputs with -inf entries and 0-2 particle inputs: type, support, exact mass for every batch element and particle, determinism; (3) Gaussian.sample: mass vs the closed-form marginal, determinism, and reparametrised samples recovered as an affine map of the noise with exactly the Gaussian's mean and covariance. Also: point masses inside the generated term language (several Deltas, one point a function of another's variable, reductions / Integrate over some of a Delta's variables) against the reference semantics of vf/lang.py; a Delta over several real inputs of a Gaussian (terms in any order) integrated / reduced / substituted, some inputs left free.",
     "Trusts numpy's seeded global RNG as the only randomness of the numpy backend, the C13 dense closed forms, and Delta.terms for locating sample points.",
     "DESIGN.md section 3 C14",
 )
@@ -106,22 +106,22 @@ add(
 add(
     "C19",
     "property-based testing: generated arrays/name maps and funsors vs. explicit numpy indexing (round trip), plus metamorphic relations for align and materialize",
-    "Bounded exploration: to_funsor with every placement of names over rank 0-5 arrays (real and bounded-integer, event rank 0-2) compared element-wise at every named point, to_data round trip up to size-1 batch dims and independent of the funsor's input order; align with permutations on Tensors (data == transposed array), lazy terms, Contractions and Gaussians (value at every point); Tensor.materialize of lazy index expressions against the reference evaluator. Also: Gaussians with up to four equal-sized integer inputs (permutations that are not their own inverse), one prototype materialising two expressions whose inputs re-use names with other sizes.",
+    "Bounded exploration: to_funsor with every placement of names over rank 0-5 arrays (real and bounded-integer, event rank 0-2) compared element-wise at every named point, to_data round trip up to size-1 batch dims and independent of the funsor's input order; align with permutations on Tensors (data == transposed array), lazy terms, Contractions and Gaussians (value at every point); Tensor.materialize of lazy index expressions against the reference evaluator. Also: Gaussians with up to four equal-sized integer inputs (permutations that are not their own inverse), one prototype materialising two expressions whose inputs re-use names with other sizes; a Variable or strided Slice substituted onto the name of another kept input (diagonal), against direct numpy indexing.",
     "Trusts numpy indexing/transposition and vf/lang.py for lazy terms; align is exercised with permutations of all names on non-Tensor terms (as documented).",
     "DESIGN.md section 3 C19",
 )
 add(
     "C16",
     "exhaustive enumeration over a pool of ~150 parametric types (order axioms, differential against an independent structural model of the type language, instance membership) + enumerated/synthesised dispatch queries for every registered signature + generated register/dispatch histories on fresh registries",
-    "G2 checks reflexivity, transitivity (all triples in the thorough tier), agreement with a 60-line structural model on all pairs, deep_isinstance vs the relation, and membership of every sample value in each one-step generalisation of its deep type. G1 checks for every dispatcher of the 8 dispatched interpretations and adjoint_ops that the chosen rule belongs to a matching pattern not strictly refined by a different rule's matching pattern, and that it is stable under cache clearing, reorder(), shuffled registration order and register/dispatch histories through origin and subscripted keys. Also: generated parametrisations (object / Any / general / specific in every parameter position) and variadic dispatch histories on a fresh PartialDispatcher judged by accepted-argument sets.",
+    "G2 checks reflexivity, transitivity (all ~7 million triples, in both tiers), agreement with a 60-line structural model on all pairs, deep_isinstance vs the relation, and membership of every sample value in each one-step generalisation of its deep type. G1 checks for every dispatcher of the 8 dispatched interpretations and adjoint_ops that the chosen rule belongs to a matching pattern not strictly refined by a different rule's matching pattern, and that it is stable under cache clearing, reorder(), shuffled registration order and register/dispatch histories through origin and subscripted keys. Also: generated parametrisations (object / Any / general / specific in every parameter position) and variadic dispatch histories on a fresh PartialDispatcher judged by accepted-argument sets.",
     "Trusts the structural model (vf/props/c16.py model_sub) and multipledispatch's own ordering only through its observable choices.",
     "DESIGN.md section 3 C16",
 )
 add(
     "C07",
     "model-based (stateful) property testing: generated construct/drop/gc/pickle/copy/reinterpret/reallocate histories over a pool of term, domain and op recipes against a reference model of structural keys with arrays compared by identity",
-    "Bounded exploration of 6-24 step histories: after every step two live reflect-level handles must be identical iff their structural keys are equal, constructed objects carry exactly the requested arguments (array identity, op parameters such as alternative slice spellings), pickle/copy/reinterpret under reflect return the identical object, and every term (and every Variable inside a frozenset argument) that no live handle reaches must be dead after gc.collect(). Also: rejected malformed domain requests that compare equal to valid ones; domains validated field by field.",
-    "Relies on CPython reference counting + gc.collect(); identity is demanded only for constructions that do not evaluate; domains, ops and parametrised types are checked for identity, not reclamation.",
+    "Bounded exploration of 6-24 step histories plus two scenario families (a parametrised op and freshly sized domains used by a term or by find_domain and then dropped must be dead; every documented domain form and variables over them through pickle / deepcopy): after every step two live reflect-level handles must be identical iff their structural keys are equal, constructed objects carry exactly the requested arguments (array identity, op parameters such as alternative slice spellings), pickle/copy/reinterpret under reflect return the identical object, and every term (and every Variable inside a frozenset argument) that no live handle reaches must be dead after gc.collect(). Also: rejected malformed domain requests that compare equal to valid ones; domains validated field by field.",
+    "Relies on CPython reference counting + gc.collect(); identity is demanded only for constructions that do not evaluate; domains, ops and parametrised types inside recipe histories are checked for identity; reclamation of ops and domains is checked in the used-then-dropped scenario.",
     "DESIGN.md section 3 C07",
 )
 add(
@@ -134,7 +134,7 @@ add(
 add(
     "C20",
     "property-based testing with a mutation monitor: generated programs and follow-up operations run on leaf arrays produced by a hashing factory (read-only in half of the cases); held funsors are snapshotted and re-checked",
-    "Bounded exploration: the mixed program driver plus 2-5 follow-up operations (align, reductions, substitution, arithmetic, to_data, sample, compile, adjoint, optimizer, indexing, rename, slice, pickle) per case; afterwards every leaf array must be bit-identical (sha1, shape, dtype, strides), every held funsor must have unchanged inputs/output/array contents, and no read-only write error may surface from funsor. Also: bijective Scatter and the block-assembly helpers as follow-ups on monitored arrays.",
+    "Bounded exploration: the mixed program driver plus 2-5 follow-up operations (align, reductions, substitution, arithmetic, to_data, sample, compile, adjoint, optimizer, indexing, rename, slice, pickle) per case; afterwards every leaf array must be bit-identical (sha1, shape, dtype, strides), every held funsor must have unchanged inputs/output/array contents, and no read-only write error may surface from funsor. Also: bijective Scatter, the block-assembly helpers and the array-level linear algebra behind Gaussians (cholesky, solves, constructors from precision / covariance) on monitored, also degenerate, matrices as follow-ups.",
     "Trusts numpy's writeable flag and sha1 of array bytes; covers the operations the driver performs (numpy backend).",
     "DESIGN.md section 3 C20",
 )
